@@ -96,6 +96,11 @@ type Replay struct {
 	Ambient    bool           `json:"ambient,omitempty"`
 	Attempts   int            `json:"attempts,omitempty"`
 	Hits       int            `json:"hits,omitempty"`
+	// Crash: the worker process died in this run with a panic or fatal error whose origin is the
+	// code under test (written by the driver, which sees the dead process; there is no consumed
+	// tape, the run is re-created from seed and run index). Cpu is the -test.cpu value it ran with.
+	Crash      bool           `json:"crash,omitempty"`
+	Cpu        string         `json:"cpu,omitempty"`
 	ShrunkFrom int            `json:"shrunk_from_draws"`
 	ShrunkTo   int            `json:"shrunk_to_draws"`
 	Candidates int            `json:"shrink_candidates"`
@@ -286,6 +291,10 @@ func Main(t *testing.T, engine string, f RunFunc) {
 			break
 		}
 		tp := tape.New(seed, property, run)
+		if outPath != "" {
+			// which run is being executed: read by the driver if this process dies
+			_ = os.WriteFile(outPath+".cur", []byte(strconv.FormatUint(run, 10)), 0o644)
+		}
 		out := execOnce(t, engine, f, tp, env)
 		res.Runs++
 		if os.Getenv("VERIF_TRACEHASHES") != "" {
@@ -577,6 +586,15 @@ func replayMain(t *testing.T, engine string, f RunFunc, env *Env, path string) {
 	}
 	env.KeepTrace = true
 	defer os.RemoveAll(scratchRoot())
+	if rp.Crash {
+		// the process is expected to die inside this call; if it survives, the crash did not reproduce
+		_ = execOnce(t, engine, f, tape.New(rp.Seed, rp.Property, rp.Run), env)
+		js, _ := json.Marshal(map[string]any{"property": rp.Property, "replay": path, "sig": rp.Violation.Sig, "reproduced": false, "crash": true})
+		if outPath := os.Getenv("VERIF_OUT"); outPath != "" {
+			_ = os.WriteFile(outPath, js, 0o644)
+		}
+		return
+	}
 	out := execOnce(t, engine, f, tape.Replay(rp.Tape), env)
 	v := hasSig(out, rp.Violation.Sig)
 	attempts := 1
